@@ -5,7 +5,9 @@ kinds, file contents) as seen by Python.  From the initial tree
 {a: file "hello", d/: directory, d/x: file "xyz"} every transition
 
   make_directory(N)  make_directory_path(N)  delete_file(N)  delete_directory(N)
-  rename_file(N1,N2)  file_copy(N1,N2)   (all ordered pairs, N1 = N2 included)
+  rename_file(N1,N2)  file_copy(N1,N2)   (all ordered pairs, N1 = N2 included, over the
+      names plus five alias spellings of a and d/x: ./a, d/./x, d/../d/x and the paths
+      relative to the working directory instead of absolute)
   create(N,K): open/write K bytes/close, K in {0,5}
 
 over the names {a, b, d, d/x, u-umlaut, "sp ace", m/q/p, .h} is applied to every
@@ -55,7 +57,28 @@ SCRATCH = os.path.join(pool.WORK, "agentH", "fs")
 HELPER = os.path.join(pool.ROOT, "vx", "prolog", "c48_files.pl")
 
 NAMES = ["a", "b", "d", "d/x", "ü", "sp ace", "m/q/p", ".h"]
-QNAMES = NAMES + ["d/../a", "d/.", "a/", "d/", "", "m", "ü/../b"]
+# other spellings of the files a and d/x: dotted paths, and ("@rel/") the path relative to the worker's
+# working directory instead of the absolute one; used by the two-argument operations and the queries
+ALIASES = ["./a", "d/./x", "d/../d/x", "@rel/a", "@rel/d/x"]
+QNAMES = NAMES + ["d/../a", "d/.", "a/", "d/", "", "m", "ü/../b"] + ALIASES
+
+
+def tp(base, name):
+    """the absolute path Python uses for a name"""
+    if name.startswith("@rel/"):
+        name = name[5:]
+    return os.path.join(base, name) if name else base + "/"
+
+
+def name_term(base, name):
+    """the text of the name as the implementation gets it"""
+    if name.startswith("@rel/"):
+        return "rel(%s)" % fmt(S(os.path.relpath(os.path.join(base, name[5:]), pool.WORK)))
+    return fmt(S(name))
+
+
+def lexical(name):
+    return os.path.normpath(name[5:] if name.startswith("@rel/") else name)
 INITIAL = (("a", "f", b"hello"), ("d", "d", None), ("d/x", "f", b"xyz"))
 
 
@@ -64,7 +87,7 @@ def depth(tier):
 
 
 def bound_text(tier):
-    return ("BFS depth %d over 8 names x 176 transitions per state, state queries (%d spellings x 5 predicates) in every "
+    return ("BFS depth %d over 8 names (+5 alias spellings for rename_file/file_copy) x 386 transitions per state, state queries (%d spellings x 5 predicates) in every "
             "distinct tree, path_segments and ill-typed arguments once" % (depth(tier), len(QNAMES)))
 
 
@@ -81,11 +104,12 @@ def transitions():
     for n in NAMES:
         for k in (0, 5):
             ts.append(("cr", n, k))
-    for a in NAMES:
-        for b in NAMES:
+    both = NAMES + ALIASES
+    for a in both:
+        for b in both:
             ts.append(("rn", a, b))
-    for a in NAMES:
-        for b in NAMES:
+    for a in both:
+        for b in both:
             ts.append(("cp", a, b))
     return ts
 
@@ -121,26 +145,26 @@ def twin_apply(base, op):
     k = op[0]
     try:
         if k == "md":
-            os.mkdir(os.path.join(base, op[1]))
+            os.mkdir(tp(base, op[1]))
         elif k == "mdp":
-            os.makedirs(os.path.join(base, op[1]), exist_ok=True)
+            os.makedirs(tp(base, op[1]), exist_ok=True)
         elif k == "df":
-            p = os.path.join(base, op[1])
+            p = tp(base, op[1])
             if not os.path.isfile(p):
                 return "refused:NotAFile"
             os.remove(p)
         elif k == "dd":
-            os.rmdir(os.path.join(base, op[1]))
+            os.rmdir(tp(base, op[1]))
         elif k == "cr":
-            with open(os.path.join(base, op[1]), "wb") as f:
+            with open(tp(base, op[1]), "wb") as f:
                 f.write(b"x" * op[2])
         elif k == "rn":
-            s, d = os.path.join(base, op[1]), os.path.join(base, op[2])
+            s, d = tp(base, op[1]), tp(base, op[2])
             if not os.path.isfile(s):
                 return "refused:NotAFile"
             os.rename(s, d)
         elif k == "cp":
-            s, d = os.path.join(base, op[1]), os.path.join(base, op[2])
+            s, d = tp(base, op[1]), tp(base, op[2])
             if not os.path.isfile(s):
                 return "refused:NotAFile"
             if os.path.exists(d) and os.path.samefile(s, d):
@@ -217,8 +241,10 @@ def setup(w, tier):
 
 # ---------------------------------------------------------------------------
 
-def op_term(op):
+def op_term(op, base):
     k = op[0]
+    if k in ("rn", "cp"):
+        return "%s(%s,%s)" % (k, name_term(base, op[1]), name_term(base, op[2]))
     if k in ("md", "mdp", "df", "dd"):
         return "%s(%s)" % (k, fmt(S(op[1])))
     if k == "cr":
@@ -227,9 +253,9 @@ def op_term(op):
 
 
 def hist_goal(base, hist, query):
-    ops = "[%s]" % ",".join(op_term(o) for o in hist)
+    ops = "[%s]" % ",".join(op_term(o, base) for o in hist)
     if query:
-        return "c48_hist_query(%s,%s,[%s],O,Q)" % (fmt(S(base)), ops, ",".join(fmt(S(n)) for n in QNAMES))
+        return "c48_hist_query(%s,%s,[%s],O,Q)" % (fmt(S(base)), ops, ",".join(name_term(base, n) for n in QNAMES))
     return "c48_hist(%s,%s,O)" % (fmt(S(base)), ops)
 
 
@@ -280,7 +306,7 @@ def show_ent(e):
 
 def pair_class(op):
     if op[0] in ("rn", "cp"):
-        return "same" if op[1] == op[2] else "distinct"
+        return "same" if op[1] == op[2] else "alias" if lexical(op[1]) == lexical(op[2]) else "distinct"
     return "-"
 
 
@@ -384,7 +410,7 @@ def judge_one(acc, hist, t, twin, S, exp_tree, d, r, query, wd, w, tree_after=No
 def judge_queries(acc, hist, base, qterm, case):
     qs = unlist(qterm)[0]
     for name, q in zip(QNAMES, qs):
-        p = base + "/" + name
+        p = tp(base, name)
         fe, de, fs, dfs, pc = q[1:]
         exp_fe = "true" if os.path.isfile(p) else "false"
         exp_de = "true" if os.path.isdir(p) else "false"
@@ -425,6 +451,8 @@ def judge_queries(acc, hist, base, qterm, case):
 def name_class(n):
     if n == "":
         return "base/"
+    if n.startswith("@rel/"):
+        return "relative"
     if any(ord(c) > 127 for c in n):
         return "non-ascii"
     if " " in n:
